@@ -203,22 +203,28 @@ def gen_regions(rng, case, kind):
         a, b = cuts(c, 2)
         return [f"{c}:{a}-{b}"]
     if kind in ("sorted-far", "sorted-near", "unsorted"):
-        k = rng.choice([2, 2, 3])
         out = []
         for cc in ([c] if rng.random() < 0.6 else list(chroms)):
-            while True:
+            if kind == "sorted-near":            # small gaps (reads span them), sometimes adjacent regions
+                k = rng.choice([2, 2, 3])
                 p = cuts(cc, 2 * k)
-                gaps = [p[2 * i + 2] - p[2 * i + 1] for i in range(k - 1)]
-                if kind == "sorted-near" or L[cc] < 700 or all(g >= 330 for g in gaps):
-                    break
-                k = 2
-            if kind == "sorted-near":            # small gaps, sometimes adjacent regions
                 q = [p[0]]
                 for i in range(k - 1):
-                    e = p[2 * i + 1]
+                    e = max(q[-1] + 1, p[2 * i + 1])
                     q += [e, e + rng.choice([1, 1, 2, 5, 10, 30])]
                 q.append(max(q[-1] + 5, p[-1]))
                 p = q
+            else:                                # two regions at the two ends of the chromosome, wide gap
+                k = 2
+                a = rng.randint(1, max(2, L[cc] // 10))
+                b = rng.randint(a + 1, max(a + 2, L[cc] // 8))
+                d = rng.randint(L[cc] - L[cc] // 8, L[cc] - 3)
+                e = rng.randint(d + 1, L[cc] - 1)
+                p = [a, b, d, e]
+                if rng.random() < 0.3 and L[cc] > 900:
+                    m = L[cc] // 2
+                    p = [a, b, m - 5, m + 5, d, e]
+                    k = 3
             regs = [f"{cc}:{p[2 * i]}-{p[2 * i + 1]}" for i in range(k)]
             if kind == "unsorted":
                 regs.reverse()
